@@ -10,11 +10,16 @@ Open Scope string_scope.
 Definition map_interp : mscripts :=
   mkMS (eval_script map_broker_add) (eval_script map_broker_read_unordered) (eval_script map_broker_stream_read).
 
+Definition map_cinterp : cscripts :=
+  mkCS (eval_script map_broker_find_expired) (eval_script map_broker_batch_remove).
+
 Definition map_script_by_name (n : string) : option block :=
   if String.eqb n "map_broker_add" then Some map_broker_add
   else if String.eqb n "map_broker_read_unordered" then Some map_broker_read_unordered
   else if String.eqb n "map_broker_stream_read" then Some map_broker_stream_read
   else if String.eqb n "map_broker_read_meta" then Some map_broker_read_meta
+  else if String.eqb n "map_broker_find_expired" then Some map_broker_find_expired
+  else if String.eqb n "map_broker_batch_remove" then Some map_broker_batch_remove
   else None.
 
 Definition map_srv_exec (st : rstate) (cmd : list string) : rstate * reply :=
